@@ -142,9 +142,9 @@ var QueryCalls int
 //@ loop 0 invariant[files] forall(k, 0, it, FileReq(inputs[k]) ==> Ans(inputs[k], results[k]))
 //@ loop 0 invariant[cover] forall(k, 0, it, !FileReq(inputs[k]) ==> exists(j, 0, len(toFetchIndexes), toFetchIndexes[j] == k)) @using cover, lens, own
 //@ loop 1 invariant[done] forall(j, 0, it, Ans(inputs[toFetchIndexes[j]], results[toFetchIndexes[j]]))
-//@ loop 0 invariant[files-data] forall(k, 0, it, FileReq(inputs[k]) ==> results[k] != nil)
-//@ loop 1 invariant[files-data] forall(k, 0, len(inputs), FileReq(inputs[k]) ==> results[k] != nil)
-//@ loop 1 invariant[done-data] forall(j, 0, it, results[toFetchIndexes[j]] != nil)
+//@ loop 0 invariant[files-data] forall(k, 0, it, FileReq(inputs[k]) ==> results[k] != nil) @props C09
+//@ loop 1 invariant[files-data] forall(k, 0, len(inputs), FileReq(inputs[k]) ==> results[k] != nil) @props C09
+//@ loop 1 invariant[done-data] forall(j, 0, it, results[toFetchIndexes[j]] != nil) @props C09
 //@ loop 1 invariant[files] forall(k, 0, len(inputs), FileReq(inputs[k]) ==> Ans(inputs[k], results[k]))
 // C10/C09: a reply that carries errors ends the batch with those errors, whatever else it carries
 //@ loop 1 invariant[errors-reported] forall(j, 0, it, len(resps[j].Errors) == 0) @props C10 C09 C11
